@@ -269,7 +269,7 @@ class Categorize(Factory, Container):
             self.n_dim == 1
             and all_weights_one
             and isinstance(self.value, Count)
-            and self.value.transform is identity
+            and self.value.transform == identity
         ):
             # special case of filling single array where all weights are 1
             uniques, counts = np.unique(q, return_counts=True)
